@@ -425,29 +425,25 @@ fn sequential_streams(w: &Workload, forms: &[Sexp], subset: &[usize]) -> Result<
 
 impl Prepared {
     /// What a scan that started exactly the files in `started` must deliver on destination `d`,
-    /// as a list of streams whose records are to be added up: the sequential scan over all files
-    /// if all were started; otherwise the scan over no file plus, per started file, what a
-    /// single-file scan adds to it.
+    /// as a list of streams whose records are to be added up (and a list to subtract): the
+    /// sequential scan over all files if all were started; otherwise the sequential scan over
+    /// exactly the started files (a break only keeps NEW files from being started, so every
+    /// started file is evaluated as in a scan without break). A summary written at the end of the
+    /// scan (a count of matches) is then what it must be for that set of files.
     fn expected_streams(&self, w: &Workload, started: &BTreeSet<usize>, d: &str) -> (Vec<String>, Vec<String>) {
         if started.len() == w.files.len() {
             return (vec![self.ref_streams.get(d).cloned().unwrap_or_default()], vec![]);
         }
-        let mut get = |subset: Vec<usize>| -> String {
-            let mut cache = self.subset_cache.lock().unwrap();
-            if !cache.contains_key(&subset) {
-                let streams = sequential_streams(w, &self.forms, &subset).unwrap_or_default();
-                cache.insert(subset.clone(), streams);
+        let subset: Vec<usize> = started.iter().copied().collect();
+        let mut cache = self.subset_cache.lock().unwrap();
+        if !cache.contains_key(&subset) {
+            if cache.len() > 64 {
+                cache.clear();
             }
-            cache[&subset].get(d).cloned().unwrap_or_default()
-        };
-        let empty = get(vec![]);
-        let mut plus = vec![empty.clone()];
-        let mut minus = vec![];
-        for f in started {
-            plus.push(get(vec![*f]));
-            minus.push(empty.clone());
+            let streams = sequential_streams(w, &self.forms, &subset).unwrap_or_default();
+            cache.insert(subset.clone(), streams);
         }
-        (plus, minus)
+        (vec![cache[&subset].get(d).cloned().unwrap_or_default()], vec![])
     }
 }
 
@@ -881,8 +877,10 @@ pub fn judge(w: &Workload, prep: &Prepared, ex: &Exec) -> (Verdict, Metrics) {
                 *balance.entry((payload.clone(), *tag)).or_insert(0) += 1;
             }
             if let Some(((payload, tag), n)) = balance.iter().find(|(_, n)| **n > 0) {
-                let (_, _, a, b) = got.iter().find(|g| g.0 == *payload && g.1 == *tag).unwrap();
-                let files = files_of(*a, *b);
+                let files = match got.iter().find(|g| g.0 == *payload && g.1 == *tag) {
+                    Some((_, _, a, b)) => files_of(*a, *b),
+                    None => BTreeSet::new(),
+                };
                 let class = if files.len() > 1 { "mixed-frame" } else { "records-lost-or-altered" };
                 return (
                     vio(
